@@ -53,6 +53,10 @@ func c15Text(c C15Case) string {
 		b.WriteString("  publish_policy {\n    require_actor on\n  }\n")
 	case "require_request_id":
 		b.WriteString("  publish_policy {\n    require_request_id on\n  }\n")
+	case "require_both":
+		b.WriteString("  publish_policy {\n    require_actor on\n    require_request_id on\n  }\n")
+	case "require_both_no_pull":
+		b.WriteString("  publish_policy {\n    require_request_id on\n    allow_pull_routes off\n    require_actor on\n  }\n")
 	case "direct_off":
 		b.WriteString("  publish_policy {\n    direct off\n  }\n")
 	case "no_pull":
@@ -85,7 +89,7 @@ func genC15Case() *rapid.Generator[C15Case] {
 		c.Depth = rapid.SampledFrom([]int{3, 5, 8, 1000}).Draw(t, "depth")
 		c.Drop = rapid.SampledFrom([]string{"reject", "reject", "drop_oldest"}).Draw(t, "drop")
 		c.MaxBody = rapid.SampledFrom([]int{4, 32, 1024}).Draw(t, "max_body")
-		c.Policy = rapid.SampledFrom([]string{"", "", "", "", "require_actor", "require_request_id", "direct_off", "no_pull", "no_deliver"}).Draw(t, "policy")
+		c.Policy = rapid.SampledFrom([]string{"", "", "", "", "require_actor", "require_request_id", "require_both", "require_both", "require_both_no_pull", "direct_off", "no_pull", "no_deliver"}).Draw(t, "policy")
 		c.Scoped = rapid.IntRange(0, 4).Draw(t, "scoped") == 0
 		c.Audit = rapid.SampledFrom([]string{"", "", "", "", "no-reason", "no-actor", "no-request-id"}).Draw(t, "audit")
 		c.Fault = rapid.SampledFrom([]string{"", "", "", "", "", "", "other", "full", "pressure"}).Draw(t, "fault")
@@ -305,7 +309,7 @@ func c15Build(c C15Case) (items []map[string]any, invalid map[int]string) {
 				r = "" // on the scoped path the route policy is a request-level cause (see runC15)
 			}
 			switch {
-			case c.Policy == "no_pull" && (r == "/p" || r == "/m" || r == "/small"):
+			case (c.Policy == "no_pull" || c.Policy == "require_both_no_pull") && (r == "/p" || r == "/m" || r == "/small"):
 				invalid[i] = "policy-no-pull"
 			case c.Policy == "no_deliver" && (r == "/d1" || r == "/d2" || r == "/out"):
 				invalid[i] = "policy-no-deliver"
@@ -340,13 +344,13 @@ func runC15(c C15Case, _ bool) *fOutcome {
 	switch {
 	case c.Audit == "no-reason":
 		requestLevel = "no-audit-reason"
-	case c.Policy == "require_actor" && c.Audit == "no-actor":
+	case (c.Policy == "require_actor" || strings.HasPrefix(c.Policy, "require_both")) && c.Audit == "no-actor":
 		requestLevel = "actor-required"
-	case c.Policy == "require_request_id" && c.Audit == "no-request-id":
+	case (c.Policy == "require_request_id" || strings.HasPrefix(c.Policy, "require_both")) && c.Audit == "no-request-id":
 		requestLevel = "request-id-required"
 	case c.Policy == "direct_off" && !c.Scoped:
 		requestLevel = "direct-disabled"
-	case c.Policy == "no_pull" && c.Scoped:
+	case (c.Policy == "no_pull" || c.Policy == "require_both_no_pull") && c.Scoped:
 		requestLevel = "scoped-endpoint-is-pull-route"
 	}
 	overflow := false
